@@ -66,7 +66,10 @@ REF_FUNCS = {
     'isArr': lambda v: rv.rtype(v) == 'array',
     'cmpRev': lambda a, b: rv.compare(b, a),
 }
-CONSTS = {'dt': datetime.datetime(2020, 1, 2, 3, 4, 5), 'rx': re.compile('a')}
+SELF_ARRAY = [1.0]
+SELF_ARRAY.append(SELF_ARRAY)       # an array that contains itself: it has no JSON text; read-only host global `sa`, never part of a state
+CONSTS = {'dt': datetime.datetime(2020, 1, 2, 3, 4, 5), 'rx': re.compile('a'), 'sa': SELF_ARRAY}
+NONFINITE = {'inf': float('inf'), 'nan': float('nan')}
 
 
 # ---------------------------------------------------------------------------------------------------------------
@@ -103,10 +106,38 @@ def fresh(text, build):
     return ('x', build, text)
 
 
+def nonfinite(which):
+    """An infinite / NaN number, obtained in script text by overflowing float arithmetic."""
+    return ('e', which, {'inf': '1e+308 * 10', 'nan': '1e+308 * 10 - 1e+308 * 10'}[which])
+
+
 WRONG = {
     'null': NULL, 'boolean': TRUE, 'number': num(1), 'string': lit('x'), 'array': var('bb'), 'object': var('oo'),
     'function': fn('isOne'), 'datetime': const('dt'), 'regex': const('rx'),
 }
+
+
+def wrong_values(ptype, nullable=False, table=None):
+    """[(label, descriptor)] of the invalid values tried for one typed parameter: one value of every other type (null
+    unless accepted), the self-containing array `sa` (a wrong-typed value that has no JSON text) unless arrays are
+    accepted, and - for number parameters, all of which are integer-constrained here - an infinite and a NaN number."""
+    out = [(t, w) for t, w in (table or WRONG).items() if t != ptype and not (t == 'null' and nullable)]
+    if ptype != 'array':
+        out.append(('array:self-containing', const('sa')))
+    if ptype == 'number':
+        out.append(('number:inf', nonfinite('inf')))
+        out.append(('number:nan', nonfinite('nan')))
+    return out
+
+
+def n_wrong(ptype, nullable=False):
+    """Closed form of len(wrong_values(...)): nine types minus the accepted one, minus null when nullable, plus the
+    self-containing array when arrays are not accepted, plus inf and NaN for numbers."""
+    return 8 - (1 if nullable else 0) + (0 if ptype == 'array' else 1) + (2 if ptype == 'number' else 0)
+
+
+def self_array_intact():
+    return len(SELF_ARRAY) == 2 and SELF_ARRAY[0] == 1.0 and SELF_ARRAY[1] is SELF_ARRAY
 
 
 def ref_value(arg, pool):
@@ -119,6 +150,8 @@ def ref_value(arg, pool):
         return REF_FUNCS[payload]
     if kind == 'g':
         return CONSTS[payload]
+    if kind == 'e':
+        return NONFINITE[payload]
     return payload()
 
 
@@ -184,9 +217,7 @@ def alphabet(L):  # pylint: disable=too-many-locals,too-many-statements
         for pos, p in enumerate(pars):
             if p.type is None:
                 continue
-            for tname, w in WRONG.items():
-                if tname == p.type or (tname == 'null' and p.nullable):
-                    continue
+            for _, w in wrong_values(p.type, p.nullable):
                 events.append((name, base[:pos] + [w] + base[pos + 1:]))
         # 3. a missing required argument (every shorter argument list), 4. a surplus argument
         for m in range(0, required):
@@ -198,9 +229,8 @@ def alphabet(L):  # pylint: disable=too-many-locals,too-many-statements
             events.append(('arrayNew', list(combo)))
             for a in arr:
                 events.append(('arrayPush', [a] + list(combo)))
-    for tname, w in WRONG.items():
-        if tname != 'array':
-            events.append(('arrayPush', [w, num(1)]))
+    for _, w in wrong_values('array'):
+        events.append(('arrayPush', [w, num(1)]))
     events.append(('arrayPush', []))
     events.append(('objectNew', []))
     for k1 in keys:
@@ -211,10 +241,9 @@ def alphabet(L):  # pylint: disable=too-many-locals,too-many-statements
                     events.append(('objectNew', [k1, v1, k2, v2]))
     events.append(('objectNew', [lit('k1')]))                       # a key without a value: left open
     events.append(('objectNew', [lit('k1'), num(1), lit('k2')]))
-    for tname, w in WRONG.items():
-        if tname != 'string':
-            events.append(('objectNew', [w, num(1)]))
-            events.append(('objectNew', [lit('k1'), num(1), w, num(1)]))
+    for _, w in wrong_values('string'):
+        events.append(('objectNew', [w, num(1)]))
+        events.append(('objectNew', [lit('k1'), num(1), w, num(1)]))
     out = []
     seen = set()
     for name, args in events:
@@ -434,6 +463,9 @@ def run_event(rt, st, ei, acc, number=None):
             st.fresh_rlive()
             return None
 
+    if not self_array_intact():
+        acc.violation(case, 'sa = [1, sa]', 'changed', 'a call changed the read-only self-containing array argument')
+        raise HarnessError('the self-containing host global was modified; the run cannot continue: ' + text)
     i_same = live.untouched()
     r_same = rside.untouched()
     if i_same and r_same:
@@ -593,7 +625,7 @@ STRING_SIGS = {
 COUNTS = [-1.0, 0.0, 1.0, 2.0, 3.0, 1.5]
 NEW_VALUES = [NULL, TRUE, ('k', False, 'false'), num(1), num(1.5), num(-2), num(0), var('arr'), var('obj'), fn('isOne'), const('rx')]
 CODES = [97.0, 32.0, 233.0, 128512.0, 0.0]
-BADCODES = [num(-1), num(1.5), NULL, TRUE, lit('a'), var('arr'), var('obj')]
+BADCODES = [num(-1), num(1.5), NULL, TRUE, lit('a'), var('arr'), var('obj'), const('sa'), nonfinite('inf'), nonfinite('nan')]
 
 
 def string_domain(kind, first, maxlen):
@@ -621,9 +653,7 @@ def string_cases(name, firsts, maxlen):
         for base0 in ('ab', ''):
             base = [('str', base0)] + [('str', 'b') if k == 'S' else num(0) for k in kinds[1:]]
             for pos, k in enumerate(kinds):
-                for tname, w in SWRONG.items():
-                    if tname == ('string' if k == 'S' else 'number') or (tname == 'null' and k == 'N'):
-                        continue
+                for _, w in wrong_values('string' if k == 'S' else 'number', k == 'N', SWRONG):
                     yield base[:pos] + [w] + base[pos + 1:]
             for m in range(0, required):
                 yield base[:m]
@@ -643,7 +673,7 @@ def string_count(name, maxlen):
             total += prod
     wrong = 0
     for k in kinds:
-        wrong += 8 if k in ('S', 'C', 'I') else 7      # nine types minus the accepted one (minus null when nullable)
+        wrong += n_wrong('string' if k == 'S' else 'number', k == 'N')
     return total + 2 * (wrong + required + 1)
 
 
@@ -705,6 +735,8 @@ def check_strings(case, acc):
         return None
     acc.evals += 1
     case = dict(case, text=text)
+    if not self_array_intact():
+        raise HarnessError('the self-containing host global was modified by ' + text)
     if canon({k: srt.globals[k] for k in SGLOBALS}) != before:
         acc.violation(case, 'arguments unchanged', canon({k: srt.globals[k] for k in SGLOBALS}), 'a string function changed an argument')
     if out.value is UNSPECIFIED:
@@ -813,12 +845,12 @@ def fam_regex(arg):
 
 def bad_calls(name):
     """Wrong-typed (every other type), missing and surplus argument lists of a one-string-parameter function."""
-    return [{'fn': name, 'wrong': t} for t in WRONG if t != 'string'] + [{'fn': name, 'nargs': 0}, {'fn': name, 'nargs': 2}]
+    return [{'fn': name, 'wrong': t} for t, _ in wrong_values('string')] + [{'fn': name, 'nargs': 0}, {'fn': name, 'nargs': 2}]
 
 
 def check_bad_call(case, acc):
     bs = load_impl()
-    args = [ref_value(WRONG[case['wrong']], {'bb': [], 'oo': {}})] if 'wrong' in case else ['a'] * case['nargs']
+    args = [ref_value(dict(wrong_values('string'))[case['wrong']], {'bb': [], 'oo': {}})] if 'wrong' in case else ['a'] * case['nargs']
     got = impl_call(bs, case['fn'], args)
     acc.evals += 1
     if got is not None:
@@ -928,10 +960,10 @@ def families(tier):
                f'15 string* functions; every argument tuple over the {npool} strings (length <= {maxlen} over a,b,space; "", A, e-acute, an emoji), indices -2..len+2 and 1.5 as float literals, '
                'null/omitted optional index, plus wrong-typed, missing and surplus arguments', expected=expected_strings),
         Family('regex', fam_regex, split(list(range(nrx)), 64),
-               f'every ordered pair (s, t) of the {nrx} strings of length <= 2 over the 32 ASCII punctuation characters + a, 0, space', expected=nrx * nrx + 8 + 2),
+               f'every ordered pair (s, t) of the {nrx} strings of length <= 2 over the 32 ASCII punctuation characters + a, 0, space', expected=nrx * nrx + n_wrong('string') + 2),
         Family('url', fam_url, split(list(range(nurl)), 32),
                f'every string of length 1..2 over {nurl} characters (128 ASCII + 6 non-ASCII) + "" + {len(URL_EXTRA)} longer percent cases; both functions',
-               expected=nurl * (nurl + 1) + 1 + len(URL_EXTRA) + 2 * (8 + 2)),
+               expected=nurl * (nurl + 1) + 1 + len(URL_EXTRA) + 2 * (n_wrong('string') + 2)),
     ]
 
 
